@@ -32,4 +32,13 @@ inductive RTarget where
   | other (id : Nat)
   deriving DecidableEq, Repr
 
+/-- A plain forwarder of the C binding (`src/teakra_c.cpp`); identifiers and types are hashed texts. -/
+structure CFwd where
+  cname : Nat
+  method : Nat
+  ptypes : List Nat
+  pnames : List Nat
+  args : List Nat
+  deriving DecidableEq, Repr
+
 end Teakra
